@@ -172,7 +172,7 @@ def main():
             p = subprocess.run([b, "-test.run", r["run"], "-test.timeout", "600s", "-replay", replay], cwd=os.path.join(ROOT, "checks", cfg["pkg"]), env=e,
                                stdout=subprocess.PIPE, stderr=subprocess.STDOUT, text=True)
             sys.stdout.write(p.stdout[-6000:])
-            if "REPLAY-FAIL" in p.stdout or ("REPLAY-PASS" not in p.stdout and p.returncode not in (0, 2)):
+            if "WARNING: DATA RACE" in p.stdout or "REPLAY-FAIL" in p.stdout or ("REPLAY-PASS" not in p.stdout and p.returncode not in (0, 2)):
                 log("VIOLATION property=%s replay=%s" % (pid, replay))
                 return 1
             if "REPLAY-PASS" in p.stdout:
